@@ -284,7 +284,10 @@ def run_batch(ctx, cases, harness_exe, driver, jobs=None, harness_env=None):
         with open(path, "w") as f:
             f.write("\n".join(lines) + "\n")
         hout, aborts = run_harness(harness_exe, path, starts, len(lines), env=harness_env)
-        dout = run_driver(driver, path)
+        if driver is None:      # the (generated) model does not build: compare impl with std only
+            dout = ["%s\t%s" % ((h.split("\t") + [h])[1], (h.split("\t") + [h])[1]) for h in hout]
+        else:
+            dout = run_driver(driver, path)
         os.unlink(path)
         if len(dout) != len(lines):
             raise MachineryError("driver output has %d lines, expected %d" % (len(dout), len(lines)))
